@@ -2,14 +2,16 @@
 Each entry: crate-relative file, item selector (same finder as the Verus extractor), attribute text."""
 
 GET_DATETIME = '''
-#[cfg_attr(kani, kani::requires(modified_julian_date >= 1
-    && past_midnight >= chrono::Duration::zero() && past_midnight < chrono::Duration::days(1)))]
-#[cfg_attr(kani, kani::ensures(|r: &Option<DateTime<Utc>>| match r {
-    // C08: exactly 1970-01-01T00:00:00Z + (d - 1) days + t
-    Some(dt) => dt.timestamp() == (modified_julian_date as i64 - 1) * 86_400 + past_midnight.num_seconds()
-        && dt.timestamp_subsec_millis() as i64 == past_midnight.num_milliseconds() % 1000,
-    None => false,
-}))]
+#[cfg_attr(kani, kani::ensures(|r: &Option<DateTime<Utc>>|
+    // C08: for a day count d in 1..=65535 and a time of day below 24 h: exactly 1970-01-01T00:00:00Z + (d - 1) days + t.
+    // (The domain is a hypothesis inside the postcondition, not a `requires`: outside it the function must still
+    // return, which the *_total harnesses check on the same function.)
+    !(modified_julian_date >= 1 && past_midnight >= chrono::Duration::zero() && past_midnight < chrono::Duration::days(1))
+    || match r {
+        Some(dt) => dt.timestamp() == (modified_julian_date as i64 - 1) * 86_400 + past_midnight.num_seconds()
+            && dt.timestamp_subsec_millis() as i64 == past_midnight.num_milliseconds() % 1000,
+        None => false,
+    }))]
 '''
 
 CONTRACTS = {
